@@ -122,6 +122,7 @@ def run_program(S, prog, main, clk, stm, fn):
         cname = {id(v): k for k, v in clocks.items()}
         tasks = {}
         counts = {}
+        stopped_calls = set()
 
         def do_ops(ops, inner):
             for op in ops:
@@ -132,34 +133,44 @@ def run_program(S, prog, main, clk, stm, fn):
             if k == 'sleep':
                 cosched._FakeTime.sleep(op[1] / U)
                 return
-            c = clocks[op[1]]
-            if k == 'sched':
-                S.emit('call', api='sched', clock=op[1], task=op[2], arg=op[3] * K, inner=inner)
-                c.sched(op[3] / U, tasks[op[2]])
-            elif k == 'sched_abs':
-                # absolute times are relative to the program start (seconds for sys/app, beats for tempo clocks
-                # created at the program start with beats 0)
-                S.emit('call', api='sched_abs', clock=op[1], task=op[2], arg=op[3] * K, inner=inner)
-                if op[1] == 'sys':
-                    c.sched_abs(base_el + op[3] / U, tasks[op[2]])
+            c = clocks[op[1]] if k != 'osc' else None
+            try:
+                if k == 'sched':
+                    S.emit('call', api='sched', clock=op[1], task=op[2], arg=op[3] * K, inner=inner)
+                    c.sched(op[3] / U, tasks[op[2]])
+                elif k == 'sched_abs':
+                    # absolute times are relative to the program start (seconds for sys/app, beats for tempo clocks
+                    # created at the program start with beats 0)
+                    S.emit('call', api='sched_abs', clock=op[1], task=op[2], arg=op[3] * K, inner=inner)
+                    if op[1] == 'sys':
+                        c.sched_abs(base_el + op[3] / U, tasks[op[2]])
+                    else:
+                        c.sched_abs(op[3] / U, tasks[op[2]])
+                elif k == 'clear':
+                    S.emit('call', api='clear', clock=op[1], task='', arg=0, inner=inner)
+                    c.clear()
+                elif k == 'tempo':
+                    S.emit('call', api='tempo', clock=op[1], task='', arg=op[2], arg2=op[3], inner=inner)
+                    # The tempo setter reads the caller's logical time outside any critical section; from a plain
+                    # thread that read races with clock wake-ups (recorded as a finding under C07/C05).  Here the
+                    # caller holds the library lock, which makes the change atomic, as it is inside tasks.
+                    with main._main_lock:
+                        c.tempo = op[2] / op[3]
+                elif k == 'stop':
+                    S.emit('call', api='stop', clock=op[1], task='', arg=0, inner=inner)
+                    c.stop()
+                elif k == 'osc':
+                    # an incoming datagram: the receive thread schedules its dispatch on SystemClock with delay 0
+                    S.emit('call', api='sched', clock='sys', task=op[2], arg=0, inner=inner)
+                    a = op[2].encode()
+                    dg = a + b'\0' * (4 - len(a) % 4) + b',\0\0\0'
+                    main._osc_interface._handle_request(dg, ('127.0.0.1', 57110))
                 else:
-                    c.sched_abs(op[3] / U, tasks[op[2]])
-            elif k == 'clear':
-                S.emit('call', api='clear', clock=op[1], task='', arg=0, inner=inner)
-                c.clear()
-            elif k == 'tempo':
-                S.emit('call', api='tempo', clock=op[1], task='', arg=op[2], arg2=op[3], inner=inner)
-                # The tempo setter reads the caller's logical time outside any critical section; from a plain
-                # thread that read races with clock wake-ups (recorded as a finding under C07/C05).  Here the
-                # caller holds the library lock, which makes the change atomic, as it is inside tasks.
-                with main._main_lock:
-                    c.tempo = op[2] / op[3]
-            elif k == 'stop':
-                S.emit('call', api='stop', clock=op[1], task='', arg=0, inner=inner)
-                c.stop()
-            else:
-                raise AssertionError(op)
-            S.emit('ret', api=k, clock=op[1])
+                    raise AssertionError(op)
+
+            except clk.ClockError:
+                pass        # a stopped clock refuses the call
+            S.emit('ret', api=k, clock=op[1] if k != 'osc' else 'sys')
 
         def result(name, res):
             k = res[0]
@@ -221,14 +232,22 @@ def run_program(S, prog, main, clk, stm, fn):
         for name, t in prog['tasks'].items():
             tasks[name] = (mk_rt if t.get('kind') == 'rt' else mk_fn)(name, t['script'])
 
+        def on_osc(msg, time, addr, port):
+            if msg[0] in oscseen:
+                return
+            oscseen.add(msg[0])
+            S.emit('task_begin', clock='sys', task=msg[0], k=0, lt=rel(main.current_tt._seconds))
+            S.emit('task_end', task=msg[0], k=0, res='none', val=0)
+        oscseen = set()
+        main.add_osc_recv_func(on_osc)
         threads = prog['threads']
         spawned = []
         for i, ops in enumerate(threads[1:]):
             spawned.append(S.spawn(lambda ops=ops: do_ops(ops, False), 'user%d' % (i + 1)))
         do_ops(threads[0], False)
         S.settle(horizon=base_now + prog['horizon'] / U)
-        alive = {k: bool(c._thread is not None and c._thread.is_alive()) for k, c in clocks.items()
-                 if not (k in prog.get('stopped', []))}
+        main.remove_osc_recv_func(on_osc)
+        alive = {k: bool(getattr(c, '_thread', None) is not None and c._thread.is_alive()) for k, c in clocks.items()}
         S.emit('end', arg=prog['horizon'] * K, alive=[k for k, v in sorted(alive.items()) if v], dead=[k for k, v in sorted(alive.items()) if not v],
                users_done=all(not t.is_alive() for t in spawned))
         if not all(alive.values()):
